@@ -8,7 +8,7 @@
 (*  C13  exporters: neutral gate list read back from the exported artefact   *)
 (*  C14  composition operators on QCircuit objects                          *)
 (***************************************************************************)
-EXTENDS Circuit, QSim, TLC, Json, IOUtils
+EXTENDS Circuit, QSim, Decompile, CircuitOps, TLC, Json, IOUtils
 
 Cases == JsonDeserialize(IOEnv.CASES)
 VARIABLE i
@@ -52,7 +52,11 @@ C11(c) ==
       cl == {j \in 1..Len(c.gates) : IsCl(c.gates[j])}
   IN IF bad # {} THEN <<"fail", SectionOK(c, c.sections[MinOf(bad)]), MinOf(bad) - 1>>
      ELSE IF \E j \in cl : Cardinality(covered(j)) # 1 THEN <<"fail", "classical-gate-not-in-exactly-one-section", MinOf({j \in cl : Cardinality(covered(j)) # 1}) - 1>>
-     ELSE <<"ok", "", Len(c.sections)>>
+     ELSE \* refinement binding: the transcribed scanner (Decompile.tla) predicts the reported ranges
+          LET pred == Sections(c.gates) IN
+          <<"ok", IF Len(pred) = Len(c.sections) /\ \A k \in 1..Len(pred) :
+                        pred[k].s = c.sections[k].s /\ pred[k].e = c.sections[k].e /\ pred[k].n = Len(NonBar(c.sections[k].gates))
+                  THEN "scanner-model-conforms" ELSE "scanner-model-drift", Len(c.sections)>>
 
 ---------------------------------------------------------------------------
 (* C12.  case: gin (input gates), gin_after, gout, nq, nq_out, exc          *)
@@ -112,9 +116,32 @@ StepOK(st) ==
        ELSE IF op = "rmid" THEN "remove_identities-changed-the-action" ELSE "iqft-does-not-undo-qft"
   ELSE "unknown-op"
 
+\* refinement binding: the transcribed operators (CircuitOps.tla) predict the recorded gate list of the object a
+\* step writes, gate for gate, including which entries are the SAME gate object (pattern of first occurrences)
+Pattern(gs) == [j \in 1..Len(gs) |-> CHOOSE k \in 1..j : gs[k].id = gs[j].id /\ \A l \in 1..(k - 1) : gs[l].id # gs[j].id]
+WithIds(gs, next) == [j \in 1..Len(gs) |-> [gs[j] EXCEPT !.id = next + j]]
+Predicted(st) ==
+  LET B == st.before  op == st.op  NX == 100000 IN
+  CASE op \in {"append_circuit"} -> AppendCircuit(B[st.dst + 1], B[st.src + 1], st.qubits).gates
+    [] op = "iadd" -> IAdd(B[st.dst + 1], B[st.src + 1]).gates
+    [] op = "add" -> Add(B[st.a + 1], B[st.b + 1], NX).c.gates
+    [] op = "repeat" -> Repeat(B[st.a + 1], st.n, NX).c.gates
+    [] op = "copy" -> DeepCopy(B[st.a + 1], NX).c.gates
+    [] op = "gate" -> AppendGate(B[st.dst + 1], [id |-> 0, k |-> st.g.k, w |-> st.g.w, m |-> st.g.m], NX).c.gates
+    [] op = "rmid" -> RemoveIdentities(B[st.a + 1]).gates
+    [] op = "qft_iqft" -> B[st.a + 1].gates \o WithIds(QftGates(st.qubits) \o IqftGates(st.qubits), NX)
+    [] OTHER -> <<>>
+Written(st) == IF st.op \in {"append_circuit", "iadd", "gate"} THEN st.after[st.dst + 1].gates
+               ELSE IF st.op \in {"rmid", "qft_iqft"} THEN st.after[st.a + 1].gates
+               ELSE st.after[Len(st.after)].gates
+Conforms(st) == st.op = "new" \/ st.exc # "" \/
+                (LET p == Predicted(st)  w == Written(st) IN Cores(p) = Cores(w) /\ Pattern(p) = Pattern(w))
+
 C14(c) ==
-  LET bad == {k \in 1..Len(c.steps) : StepOK(c.steps[k]) # "ok"} IN
-  IF bad = {} THEN <<"ok", "", Len(c.steps)>>
+  LET bad == {k \in 1..Len(c.steps) : StepOK(c.steps[k]) # "ok"}
+      drift == {k \in 1..Len(c.steps) : ~Conforms(c.steps[k])}
+  IN
+  IF bad = {} THEN <<"ok", IF drift = {} THEN "ops-model-conforms" ELSE "ops-model-drift:" \o c.steps[MinOf(drift)].op, Len(c.steps)>>
   ELSE <<"fail", StepOK(c.steps[MinOf(bad)]), MinOf(bad) - 1>>
 
 ---------------------------------------------------------------------------
